@@ -1,6 +1,6 @@
 (* Case runner for C12: class predicates evaluated in Coq. *)
 From Coq Require Import List String Bool.
-From RashV Require Import Sexp Tpl.
+From RashV Require Import Sexp Tpl HelpDoc.
 Import ListNotations.
 Open Scope string_scope.
 
@@ -12,5 +12,12 @@ Definition run_plain (e : sexp) : option sexp :=
       | Some s => Some (SList [show_bool (plain_string s); show_bool (has_open s); show_bool (known_retyped s)])
       | None => None
       end
+  | _ => None
+  end.
+
+(* (helpdoc xFILE) -> xTEXT : the help text docopt::parse_help extracts from a script *)
+Definition run_helpdoc (e : sexp) : option sexp :=
+  match e with
+  | SList [Atom "helpdoc"; f] => option_map (fun f => bytes_atom (parse_help f)) (atom_bytes f)
   | _ => None
   end.
